@@ -186,11 +186,21 @@ func decodeTimestamp(s []byte) (time.Time, error) {
 // See copy_reflog_msg in refs.c:
 // https://github.com/git/git/blob/7ff1e8dc1e1680510c96e69965b3fa81372c5037/refs.c#L1026-L1049
 func normalizeMessage(msg string) string {
-	msg = strings.ReplaceAll(msg, "\n", " ")
-	msg = strings.ReplaceAll(msg, "\r", " ")
-	fields := strings.Fields(msg)
+	fields := strings.FieldsFunc(msg, isGitSpace)
 	return strings.Join(fields, " ")
 }
+
+// isGitSpace mirrors Git's locale-independent isspace() (sane_ctype):
+// space, TAB, LF and CR. Vertical tab, form feed and non-ASCII blanks are
+// ordinary characters for copy_reflog_msg.
+func isGitSpace(r rune) bool {
+	return r == ' ' || r == '\t' || r == '\n' || r == '\r'
+}
+
+// identCrud removes the characters Git never writes into an identity
+// (ident.c strbuf_addstr_without_crud): a line feed would split the reflog
+// line, '<' and '>' would shift the e-mail delimiters.
+var identCrud = strings.NewReplacer("\n", "", "<", "", ">", "")
 
 // Encode writes a single reflog entry to the writer.
 func Encode(w io.Writer, e *Entry) error {
@@ -210,11 +220,13 @@ func Encode(w io.Writer, e *Entry) error {
 	minutes := (offset % 3600) / 60
 
 	msg := normalizeMessage(e.Message)
+	name := identCrud.Replace(e.Committer.Name)
+	email := identCrud.Replace(e.Committer.Email)
 
 	if msg != "" {
 		_, err := fmt.Fprintf(w, "%s %s %s <%s> %d %c%02d%02d\t%s\n",
 			e.OldHash, e.NewHash,
-			e.Committer.Name, e.Committer.Email,
+			name, email,
 			e.Committer.When.Unix(), sign, hours, minutes,
 			msg,
 		)
@@ -223,7 +235,7 @@ func Encode(w io.Writer, e *Entry) error {
 
 	_, err := fmt.Fprintf(w, "%s %s %s <%s> %d %c%02d%02d\n",
 		e.OldHash, e.NewHash,
-		e.Committer.Name, e.Committer.Email,
+		name, email,
 		e.Committer.When.Unix(), sign, hours, minutes,
 	)
 	return err
